@@ -11,6 +11,12 @@ evaluated by the Coq kernel):
   * synthetic metadata documents (shuffled / >= 11 / missing / non-numeric keys) through the
     public reader (read_parquet_dask on a dataset whose _common_metadata is rewritten)
   * dask.utils.natural_sort_key against the model
+  * coordinates that are not small integers (c12_util.COORD_MODES: decimals, 16-17 significant digits,
+    1e-11, 2^53 / 1e16 / 1e22, extents of a few ulps, float32 values, -0.0): the same comparisons on exact
+    binary64 values (c12_util.transport), boxes whose corners are an extent value / one ulp beyond / inside;
+    synthetic documents with float values of these classes through the real reader
+  * a dataset without its _common_metadata file read with bounds=; load_divisions=True with bounds=
+    against the same read without load_divisions
 """
 import json
 import math
@@ -28,7 +34,10 @@ ANCHOR_FILES = ['spatialpandas/io/parquet.py', 'spatialpandas/dask.py']
 TRUSTED = ['pandas DataFrame.to_dict / DataFrame(dict of dicts) / sort_index and json as transcribed in '
            'Model/MetaCodec.v (exercised by the synthetic-metadata stream)',
            'dask.utils.natural_sort_key as transcribed in Model/NatSort.v (exercised by the natsort stream)',
-           'Dask writes partition i to part.i.parquet; pyarrow parquet I/O (validated differentially)']
+           'Dask writes partition i to part.i.parquet; pyarrow parquet I/O (validated differentially)',
+           "Python's json module as the reference decimal <-> binary64 conversion when the stored document is read "
+           'by the harness; binary64 values reach the model as exact integers (one power of two per case, or ranks: '
+           'C12_read_order_invariant)']
 
 IMPORTS = 'Model.Num Model.Bounds Model.NatSort Model.MetaCodec'
 RB_FN = "fun '(ds, n, active, q) => read_bounds ds n active q"
@@ -662,9 +671,14 @@ def float_specs(rep, tier):
                 npart = parts[k % len(parts)]
                 kinds = KIND_PAIRS[(k * 3 + 1) % len(KIND_PAIRS)]
                 k += 1
+                coords = (mode, rng.choice(F.COORD_MODES))
+                # a float32 column holds the table values rounded to float32 (still exact binary64 extents);
+                # not for the classes whose values differ by a few ulps only (they would all coincide)
+                st2 = rng.choice(['float64', 'float64', 'float64', 'float32'])
+                if 'rel' in coords or 'e16' in coords:
+                    st2 = 'float64'
                 specs.append({'writer': writer, 'npartitions': npart, 'kinds': kinds,
-                              'subtypes': ('float64', rng.choice(['float64', 'float64', 'float64', 'float32'])),
-                              'coords': (mode, rng.choice(F.COORD_MODES)),
+                              'subtypes': ('float64', st2), 'coords': coords,
                               'nrows': max(npart, rng.randint(npart * 2, npart * 3 + 6)),
                               'seed': rng.randrange(10 ** 9), 'order': rng.randint(0, 1), 'derive': 0,
                               'missing_head': rng.choice([0, 0, 0, 3]),
@@ -782,7 +796,13 @@ def run_corpus_entry(rep, sc, ent, acc):
 def run(rep):
     import dask
     tier = getattr(rep, 'tier_run', rep.tier)
-    rep.rule = ('[also: lists of 2-3 datasets given in an order that is not the sorted path order (b_, a_, a nested '
+    rep.rule = ('[also: coordinates that are not small integers -- one dataset per writer and value class (decimals '
+                'with 1..15 places, 53-bit mantissas below 10, thirds / sevenths / 0.1+0.2, 1e-11, 1e2..1e7, extents of a few '
+                'ulps at 1e8..1e15, integers around 2^53 / 1e16, 1e21..1e23, float32 values, -0.0 / +-1e-300), compared as exact '
+                'binary64 values with boxes touching an extent exactly / one ulp beyond / one ulp inside; synthetic documents '
+                'with float values incl. subnormals, 2^53+1, 1e23, 2^64; a dataset without _common_metadata read with '
+                'bounds=; load_divisions=True with bounds=] '
+                '[also: lists of 2-3 datasets given in an order that is not the sorted path order (b_, a_, a nested '
                 'directory; >= 2 partitions each, one >= 11); datasets written from a frame carrying cached bounds '
                 '(read back / returned by pack) after a boolean-mask filter that empties some partitions and shrinks '
                 'others; one frame object written, its geometry columns renamed in place (swap / shift of names), written again; '
